@@ -201,23 +201,30 @@ class EmbeddingsCache:
         key_generator: KeyGenerator = None,
         cache_store: CacheStore = None,
         store_config: dict = None,
+        namespace: str = "",
     ):
         self._key_generator = key_generator
         self._cache_store = cache_store
         self._store_config = store_config or {}
+        # Prepended to every text before the key is generated. Entries of different
+        # embedding models that end up in the same store (same cache_dir / redis db)
+        # must not be confused: the vector of a text depends on the model.
+        self._namespace = namespace
 
     @classmethod
-    def from_dict(cls, d: Dict[str, str]):
+    def from_dict(cls, d: Dict[str, str], namespace: str = ""):
         key_generator = KeyGenerator.from_name(d.get("key_generator"))()
         store_config = d.get("store_config")
         cache_store = CacheStore.from_name(d.get("store"))(**store_config)
 
-        return cls(key_generator=key_generator, cache_store=cache_store)
+        return cls(
+            key_generator=key_generator, cache_store=cache_store, namespace=namespace
+        )
 
     @classmethod
-    def from_config(cls, config: EmbeddingsCacheConfig):
+    def from_config(cls, config: EmbeddingsCacheConfig, namespace: str = ""):
         # config is of type EmbeddingSearchProvider
-        return cls.from_dict(config.to_dict())
+        return cls.from_dict(config.to_dict(), namespace=namespace)
 
     def get_config(self):
         return EmbeddingsCacheConfig(
@@ -232,7 +239,7 @@ class EmbeddingsCache:
 
     @get.register
     def _(self, text: str):
-        key = self._key_generator.generate_key(text)
+        key = self._key_generator.generate_key(self._namespace + text)
         log.info(f"Fetching key {key} for text '{text[:20]}...' from cache")
 
         result = self._cache_store.get(key)
@@ -259,7 +266,7 @@ class EmbeddingsCache:
 
     @set.register
     def _(self, text: str, value: List[float]):
-        key = self._key_generator.generate_key(text)
+        key = self._key_generator.generate_key(self._namespace + text)
         log.info(f"Cache miss for text '{text}'. Storing key {key} in cache.")
         self._cache_store.set(key, value)
 
@@ -270,6 +277,20 @@ class EmbeddingsCache:
 
     def clear(self):
         self._cache_store.clear()
+
+
+def _model_namespace(obj) -> str:
+    """The part of the cache key that identifies the embedding model of `obj`.
+
+    The cached vector of a text is only valid for the model that computed it, while the
+    store (e.g. the default `.cache/embeddings` directory) can be shared by several
+    indexes with different models.
+    """
+    engine = getattr(obj, "embedding_engine", None)
+    model = getattr(obj, "embedding_model", None)
+    if engine is None and model is None:
+        return ""
+    return f"{engine}/{model}\x1f"
 
 
 def cache_embeddings(func):
@@ -306,7 +327,9 @@ def cache_embeddings(func):
             # if cache is not enabled compute embeddings for the whole input
             return await func(self, texts)
 
-        embeddings_cache = EmbeddingsCache.from_config(self.cache_config)
+        embeddings_cache = EmbeddingsCache.from_config(
+            self.cache_config, namespace=_model_namespace(self)
+        )
 
         cached_texts = {}
         uncached_texts = []
